@@ -686,8 +686,9 @@ class CGenerator:
                             line = replaceDefault(line, "" if value is None else str(value))
                         elif key in defaults_in_files_FOR:
                             line = replaceDefault(line, defaults_in_files_FOR[key])
-                        else:
+                        elif taganddefault[1].find("<<<") > -1: # refers to a user tag that is neither defined nor has a default.
                             line = "//POO"
+                        # else : a literal list or count ... there is nothing to substitute, the FOR header stays as it is.
                     elif has_tag and not has_for and has_if:
                         is_processing_if = True
                         # get the expression in the IF ... delimiter is ' '.
